@@ -63,3 +63,26 @@ Proof. vm_compute. reflexivity. Qed.
 Example C3_inv : inv_cipher (round_keys (hex "000102030405060708090a0b0c0d0e0f101112131415161718191a1b1c1d1e1f") 8 14) (hex "8ea2b7ca516745bfeafc49904b496089") = c_pt.
 Proof. vm_compute. reflexivity. Qed.
 (* C.1 round[1].start .. InvCipher equivalents are covered by the whole-cipher vectors above. *)
+
+(* all of the above as one proposition (an obligation of Properties_C12.v) *)
+Definition fips197_vectors_hold : Prop :=
+  (nth 4 (key_expansion (hex "2b7e151628aed2a6abf7158809cf4f3c") 4 10) [] = hex "a0fafe17") /\
+  (nth 43 (key_expansion (hex "2b7e151628aed2a6abf7158809cf4f3c") 4 10) [] = hex "b6630ca6") /\
+  (nth 6 (key_expansion (hex "8e73b0f7da0e6452c810f32b809079e562f8ead2522c6b7b") 6 12) [] = hex "fe0c91f7") /\
+  (nth 51 (key_expansion (hex "8e73b0f7da0e6452c810f32b809079e562f8ead2522c6b7b") 6 12) [] = hex "01002202") /\
+  (nth 8 (key_expansion (hex "603deb1015ca71be2b73aef0857d77811f352c073b6108d72d9810a30914dff4") 8 14) [] = hex "9ba35411") /\
+  (nth 59 (key_expansion (hex "603deb1015ca71be2b73aef0857d77811f352c073b6108d72d9810a30914dff4") 8 14) [] = hex "706c631e") /\
+  ((length rk128, length rk192, length rk256) = (11, 13, 15)%nat) /\
+  (cipher rk128 (hex "3243f6a8885a308d313198a2e0370734") = hex "3925841d02dc09fbdc118597196a0b32") /\
+  (inv_cipher rk128 (hex "3925841d02dc09fbdc118597196a0b32") = hex "3243f6a8885a308d313198a2e0370734") /\
+  (sub_bytes (hex "193de3bea0f4e22b9ac68d2ae9f84808") = hex "d42711aee0bf98f1b8b45de51e415230") /\
+  (shift_rows (hex "d42711aee0bf98f1b8b45de51e415230") = hex "d4bf5d30e0b452aeb84111f11e2798e5") /\
+  (mix_columns (hex "d4bf5d30e0b452aeb84111f11e2798e5") = hex "046681e5e0cb199a48f8d37a2806264c") /\
+  (cipher (round_keys (hex "000102030405060708090a0b0c0d0e0f") 4 10) c_pt = hex "69c4e0d86a7b0430d8cdb78070b4c55a") /\
+  (inv_cipher (round_keys (hex "000102030405060708090a0b0c0d0e0f") 4 10) (hex "69c4e0d86a7b0430d8cdb78070b4c55a") = c_pt) /\
+  (cipher (round_keys (hex "000102030405060708090a0b0c0d0e0f1011121314151617") 6 12) c_pt = hex "dda97ca4864cdfe06eaf70a0ec0d7191") /\
+  (inv_cipher (round_keys (hex "000102030405060708090a0b0c0d0e0f1011121314151617") 6 12) (hex "dda97ca4864cdfe06eaf70a0ec0d7191") = c_pt) /\
+  (cipher (round_keys (hex "000102030405060708090a0b0c0d0e0f101112131415161718191a1b1c1d1e1f") 8 14) c_pt = hex "8ea2b7ca516745bfeafc49904b496089") /\
+  (inv_cipher (round_keys (hex "000102030405060708090a0b0c0d0e0f101112131415161718191a1b1c1d1e1f") 8 14) (hex "8ea2b7ca516745bfeafc49904b496089") = c_pt).
+Lemma fips197_vectors_ok : fips197_vectors_hold.
+Proof. exact (conj A1_w4 (conj A1_w43 (conj A2_w6 (conj A2_w51 (conj A3_w8 (conj A3_w59 (conj A_lengths (conj B_cipher (conj B_inv (conj B_round1_sub (conj B_round1_shift (conj B_round1_mix (conj C1 (conj C1_inv (conj C2 (conj C2_inv (conj C3 C3_inv))))))))))))))))). Qed.
